@@ -120,6 +120,15 @@ class C18(Check):
                         cur, first = o, a
                     elif o is not cur:
                         msg = "the alias, constructed for the first time since its clear, did not return S's instance"
+                elif r < 0.66:
+                    # a SIBLING class is defined in the middle of the history: same name, module and qualified name as S
+                    # (classes made by one factory function / one `type()` call site): S keeps its instance
+                    hist.append("define another class named S")
+                    sib = singleton.TrueSingleton("S", (), {"__init__": lambda self, *a: None, "__qualname__": S.__qualname__,
+                                                            "__module__": S.__module__})
+                    keep.append(sib)
+                    if rng.random() < 0.5:
+                        keep.append(sib())
                 elif r < 0.75:
                     hist.append("clear(S)")
                     singleton.clear_true_singleton(S)
